@@ -386,6 +386,14 @@ func rawGenCW(r *Rng) (*rawCWScenario, []string) {
 	default:
 		tags = append(tags, "cw:warm=none")
 	}
+	// every other scenario: all datagrams go to ONE host, on different ports (a server and
+	// a relay on one machine; whatever a connection remembers per destination host - a
+	// cached header, a route - meets the next port) - seeded change C18-12
+	sameHost := r.Chance(1, 2)
+	hostIP := net.IP{10, 0, 9, byte(1 + r.Intn(250))}
+	if sameHost {
+		tags = append(tags, "cw:same-host-other-port")
+	}
 	for i := 0; i < k; i++ {
 		n := base
 		if i > 0 {
@@ -404,7 +412,14 @@ func rawGenCW(r *Rng) (*rawCWScenario, []string) {
 		if r.Chance(1, 3) {
 			p = r.Bytes(n)
 		}
-		s.ws = append(s.ws, rawCWWriter{payload: p, dst: &net.UDPAddr{IP: net.IP{10, 0, byte(i), byte(1 + r.Intn(250))}, Port: genPort(r)}})
+		dst := &net.UDPAddr{IP: net.IP{10, 0, byte(i), byte(1 + r.Intn(250))}, Port: genPort(r)}
+		if sameHost {
+			dst = &net.UDPAddr{IP: append(net.IP{}, hostIP...), Port: []int{67, 68, 1067, 547, genPort(r)}[(i+r.Intn(2))%5]}
+			if i > 0 && dst.Port == s.ws[i-1].dst.Port {
+				dst.Port = dst.Port%65535 + 1
+			}
+		}
+		s.ws = append(s.ws, rawCWWriter{payload: p, dst: dst})
 	}
 	perm := []int{0, 1, 2, 3}[:k]
 	for i := k - 1; i > 0; i-- {
